@@ -221,3 +221,92 @@ def run(prog: Program, res: Result) -> None:  # noqa: PLR0912, PLR0915
             else:
                 res.fail("C16.R3", file=mod.relpath, line=n.lineno, qualname=q, construct=n, message="an undefined value is manufactured where no lookup failed: under the strict policy a render can fail although every variable it uses exists", what=what)
     res.floor("C16.R3", "env.undefined() sites", n_u, 12)
+
+    # ------------------------------------------------------------------ R3b lookup fallbacks
+    res.rule("C16.R3b", "RenderContext.get_item*: the `size` fallback returns len(obj) for every Sized object (its guard consists of isinstance tests only), so an existing empty collection never turns into an undefined")
+    ctx = prog.cls("liquid2.context.RenderContext")
+    for nm in ("get_item", "get_item_async"):
+        m = ctx.methods.get(nm)
+        if m is None:
+            raise AnalysisError(f"RenderContext.{nm} vanished")
+        lens = [r for r in ast.walk(m.node) if isinstance(r, ast.Return) and norm(r.value) == "len(obj)"]
+        what = f"{nm}: `return len(obj)` guarded by isinstance tests only"
+        ok = bool(lens)
+        for r in lens:
+            guard = next((a for a in m.module.ancestors(r) if isinstance(a, ast.If)), None)
+            atoms = guard.test.values if guard is not None and isinstance(guard.test, ast.BoolOp) else ([guard.test] if guard is not None else [])
+            if not atoms or not all(isinstance(a, ast.Call) and isinstance(a.func, ast.Name) and a.func.id == "isinstance" for a in atoms):
+                ok = False
+        if ok:
+            res.ok("C16.R3b", f"{m.file}:{m.node.lineno} RenderContext.{nm}", what, "isinstance(obj, Sized)")
+        else:
+            res.fail("C16.R3b", file=m.file, line=m.node.lineno, qualname=f"RenderContext.{nm}", construct=f"{nm}: size fallback guard depends on more than the object's type", message="the `.size` fallback is skipped for some existing objects (e.g. empty ones): `items.size` of an empty list becomes undefined and fails under the strict policy although `items` exists", what=what)
+
+    # ------------------------------------------------------------------ R4 engine-internal optional lookups
+    res.rule("C16.R4", "a value obtained from context.resolve(name) without a default may be an Undefined: filters/tags must not test its truth, compare it, stringify or iterate it before an is_undefined()/isinstance() narrowing (under the strict policy that raises for a variable the template never used)")
+    from sa.cfg import CFG
+    from sa.util import cfg_node_of
+
+    n_res = 0
+    for fi in prog.all_functions():
+        maybe_undef: dict[str, ast.AST] = {}
+        for n in ast.walk(fi.node):
+            if isinstance(n, ast.Assign) and len(n.targets) == 1 and isinstance(n.targets[0], ast.Name):
+                for c in ast.walk(n.value):
+                    if isinstance(c, ast.Call) and isinstance(c.func, ast.Attribute) and c.func.attr == "resolve" and norm(c.func.value) in ("context", "ctx", "self.context") and len(c.args) == 1 and not c.keywords:
+                        maybe_undef[n.targets[0].id] = n
+        if not maybe_undef or prog.enclosing_function(fi.module, next(iter(maybe_undef.values()))) is not fi:
+            continue
+        cfg = CFG(fi.node)
+        for v in sorted(maybe_undef):
+            for use in ast.walk(fi.node):
+                if not (isinstance(use, ast.Name) and use.id == v and isinstance(use.ctx, ast.Load)):
+                    continue
+                par = fi.module.parent(use)
+                hazard = None
+                if isinstance(par, ast.Call) and isinstance(par.func, ast.Name) and par.func.id in ("is_undefined", "isinstance") and par.args and par.args[0] is use:
+                    continue
+                if isinstance(par, ast.Compare):
+                    if all(isinstance(o, (ast.Is, ast.IsNot)) for o in par.ops):
+                        continue
+                    hazard = "compared (==/in call __eq__)"
+                elif isinstance(par, (ast.If, ast.While, ast.IfExp)) and par.test is use:
+                    hazard = "tested for truth"
+                elif isinstance(par, ast.UnaryOp) and isinstance(par.op, ast.Not):
+                    hazard = "tested for truth (not)"
+                elif isinstance(par, ast.BoolOp):
+                    hazard = "tested for truth (and/or)"
+                elif isinstance(par, ast.Call) and isinstance(par.func, ast.Name) and par.func.id in ("str", "len", "bool", "int", "list", "iter", "hash") and par.args and par.args[0] is use:
+                    hazard = f"passed to {par.func.id}()"
+                elif isinstance(par, (ast.For, ast.comprehension)) and par.iter is use:
+                    hazard = "iterated"
+                elif isinstance(par, ast.Subscript) and par.value is use:
+                    hazard = "subscripted"
+                elif isinstance(par, ast.FormattedValue):
+                    hazard = "formatted into a string"
+                if hazard is None:
+                    continue
+                n_res += 1
+                tn = cfg_node_of(cfg, use)
+                site = f"{fi.file}:{use.lineno} {fi.qualname}"
+                what = f"`{v}` (from context.resolve) is {hazard} only after narrowing"
+
+                def narrowed(test: ast.AST, v: str = v) -> bool | None:
+                    t = norm(test)
+                    if t == f"is_undefined({v})":
+                        return True  # bad (still undefined) on the true edge
+                    if t == f"not is_undefined({v})":
+                        return False
+                    if t.startswith(f"isinstance({v}, "):
+                        return False  # bad on the false edge: the true edge is narrowed
+                    return None
+
+                from sa.util import guarded_by_test
+
+                g = guarded_by_test(cfg, tn, narrowed) if tn is not None else None
+                # the use may itself sit in the elif-chain *after* an is_undefined test: covered by guarded_by_test
+                if g is not None:
+                    res.ok("C16.R4", site, what, f"dominated by `{norm(g.node)}`")
+                else:
+                    res.fail("C16.R4", file=fi.file, line=use.lineno, qualname=fi.qualname, construct=f"{v} {hazard} in `{norm(par, 60)}`", message=f"`{v}` comes from context.resolve() without a default and is {hazard} before any is_undefined()/isinstance() check: with StrictUndefined the render fails with UndefinedError for an optional setting the template never mentions", what=what)
+    res.stats["C16.R4.hazardous_uses_examined"] = n_res
